@@ -1,14 +1,14 @@
 \* C15 thorough: automata check: path strings of <= 7 characters over {a, é, 1, _, :, -}, level strings of
-\* <= 5 characters over {d, e, b, u, g, w, a, r, n, 3, space, tab, é}; cases: all strings of <= 4 characters
+\* <= 5 characters over {d, e, b, u, g, w, a, r, n, 3, space, tab, line feed, é}; cases: all strings of <= 4 characters
 \* over 17 character classes, <= 5 over the level alphabet, <= 6 over the path alphabet, near-misses of 38
-\* well-formed texts, level words x prefixes x cases x suffixes, first/last nanosecond of every month 1970..9999.
+\* well-formed texts, level words x prefixes x cases x suffixes, level and kind words x 7 white-space classes on either side, first/last nanosecond of every month 1970..9999.
 \* byte-length-preserving multi-byte substitutions (14 non-ASCII representatives incl. Latin-1 high-bit aliases) of 28 fixed-width texts.
 SPECIFICATION Spec
 CONSTANTS
     PathAlgo = "repaired"
     PathChars = {"a", "é", "1", "_", ":", "-"}
     PathMaxLen = 7
-    LevelChars = {"d", "e", "b", "u", "g", "w", "a", "r", "n", "3", " ", "\t", "é"}
+    LevelChars = {"d", "e", "b", "u", "g", "w", "a", "r", "n", "3", " ", "\t", "\n", "é"}
     LevelMaxLen = 5
     Tier = "thorough"
     Emit = TRUE
